@@ -1538,7 +1538,7 @@ func checkEquality(v1, v2 reflect.Value) bool {
 		return v1.String() == v2.String()
 	case reflect.Array:
 		vlen := v1.Len()
-		if vlen == v2.Len() {
+		if vlen != v2.Len() {
 			return false
 		}
 		for i := 0; i < vlen; i++ {
